@@ -182,6 +182,20 @@ def parquet_component(ck, rd, rng, tier):
             p = rng.below(len(data))
             items.append((f"{name} byte deleted at {p}", data[:p] + data[p + 1:], ""))
             items.append((f"{name} byte inserted at {p}", data[:p] + bytes([rng.below(256)]) + data[p:], ""))
+    # files written by tools/pqwrite.py: several row groups and pages, optional columns (definition levels), strings
+    import pqwrite
+    for gi in range(2 if tier == "quick" else 8):
+        cols = [("a", "int32", rng.chance(1, 2)), ("b", "int64", True), ("s", "utf8", True), ("f", "bool", True)]
+        rgs = [{"rows": [[i * 3 + g, (None if i % 4 == 0 else i * 100000), (None if i % 5 == 0 else "v" * (i % 17)), (None if i % 3 == 0 else i % 2 == 0)] for i in range(rng.pick([3, 20, 60]))],
+                "page_rows": rng.pick([None, 7])} for g in range(rng.pick([1, 2, 3]))]
+        gp = os.path.join(SCRATCH, f"gen{gi}.parquet")
+        pqwrite.write_file(gp, cols, rgs)
+        data = open(gp, "rb").read()
+        name = f"generated{gi}({len(rgs)} row groups)"
+        positions = [p for p in range(len(data)) if rng.below(4 if tier == "quick" else 1) == 0]
+        items += byte_mutants(data, positions, name)
+        for k in range(0, len(data), 5 if tier == "quick" else 1):
+            items.append((f"{name} truncated to {k} bytes", data[:k], ""))
     for rel in LARGE:
         path = os.path.join(TESTDATA, rel)
         if not os.path.exists(path):
